@@ -63,6 +63,8 @@ def generate(rng, tier):
         region = list(reg) if rng.random() < 0.6 else None
         box = reg if region is not None else (min(es), max(es), min(ns), max(ns))
         small = min(box[1] - box[0], box[3] - box[2])
+        if small <= 0:
+            continue          # degenerate bounding box: no positive window size fits
         u = rng.random()
         if u < 0.08:
             size = small + rng.randint(1, 8) / 4.0
